@@ -43,6 +43,28 @@ package podeni
 //@ # until lastSeen + ReleaseAfter, anything unparsable keeps
 //@ guard call SubResourceWriter.Update in gcCRPodENIs$1: forall j int :: 0 <= j && j < len(podENI.Spec.Allocations) && podENI.Spec.Allocations[j].AllocationType.Type == "Fixed" ==> allocExpired(podENI.Spec.Allocations[j], podENI.Status.PodLastSeen, clock())
 
+//@ # ---- leaked-interface collector: candidates are ours, old enough and referenced by no PodENI record ----
+//@ ghost c11pass bool = false
+//@ ghost c11perr bool = true
+//@ ghost c11young bool = true
+//@ func ReconcilePodENI.gcENIs
+//@   requires m != nil && m.client != nil && m.aliyun != nil
+//@   requires forall i int :: 0 <= i && i < len(enis) ==> enis[i] != nil
+//@   at call ReconcilePodENI.eniFilter: ghost c11pass = result
+//@   at call time.Parse: ghost c11perr = (result1 != nil)
+//@   at call Time.After: ghost c11young = result
+//@   # every candidate is stored under its own id
+//@   loop 1 invariant forall k string :: k in eniMap ==> eniMap[k] != nil && eniMap[k].NetworkInterfaceID == k
+//@   loop 2 invariant forall k string :: k in eniMap ==> eniMap[k] != nil && eniMap[k].NetworkInterfaceID == k
+//@   loop 3 invariant forall k string :: k in eniMap ==> eniMap[k] != nil && eniMap[k].NetworkInterfaceID == k
+//@   loop 4 invariant forall k string :: k in eniMap ==> eniMap[k] != nil && eniMap[k].NetworkInterfaceID == k
+//@   # after looking at record j, no allocation of records 0..j names a remaining candidate
+//@   loop 2 invariant forall j int, a int :: 0 <= j && j <= rangeindex && 0 <= a && a < len(podENIs.Items[j].Spec.Allocations) ==> !(podENIs.Items[j].Spec.Allocations[a].ENI.ID in eniMap)
+//@   loop 3 invariant forall a int :: 0 <= a && a <= rangeindex ==> !(podENIs.Items[rangeindex2 + 1].Spec.Allocations[a].ENI.ID in eniMap)
+//@   loop 3 invariant forall j int, a int :: 0 <= j && j < rangeindex2 + 1 && 0 <= a && a < len(podENIs.Items[j].Spec.Allocations) ==> !(podENIs.Items[j].Spec.Allocations[a].ENI.ID in eniMap)
+//@ # a candidate enters the set only after the tag filter accepted it, its creation time parsed and it is older than ten minutes
+//@ guard mapupdate string#3 in gcENIs: c11pass && !c11perr && !c11young
+
 //@ for C10
 
 //@ pure func phaseStep(o v1beta1.Phase, n v1beta1.Phase) bool = n == "Deleting" || (o == "" && n == "Bind") || (o == "Binding" && n == "Bind") || (o == "Bind" && n == "Detaching") || (o == "Detaching" && n == "Unbind") || (o == "Unbind" && n == "Binding")
@@ -60,3 +82,8 @@ package podeni
 //@ func ReconcilePodENI.podRequirePodENI
 //@   at call client.Client.Get: ghost c10nodeerr = (result != nil)
 //@   ensures c10nodeerr ==> result
+
+//@ for C11
+//@ # the cloud is asked to detach / delete only an interface that no PodENI record references
+//@ guard call DetachNetworkInterface in gcENIs: forall j int, a int :: 0 <= j && j < len(podENIs.Items) && 0 <= a && a < len(podENIs.Items[j].Spec.Allocations) ==> podENIs.Items[j].Spec.Allocations[a].ENI.ID != arg1
+//@ guard call DeleteNetworkInterface in gcENIs: forall j int, a int :: 0 <= j && j < len(podENIs.Items) && 0 <= a && a < len(podENIs.Items[j].Spec.Allocations) ==> podENIs.Items[j].Spec.Allocations[a].ENI.ID != arg1
